@@ -143,4 +143,468 @@ theorem status_exact_partial (w : World)
         rw [this] at hl
         simpa using hl
 
+/-- The same, phrased over the edit operations of the property's quantifier: start anywhere, apply ANY
+sequence of edits (modify same/different size, chmod, delete, rmtree, create/replace by file, link or
+directory, arbitrary rearrangement, stage, unstage, remove from index, add everything). -/
+theorem status_exact_after_edits (env : Env) (w0 : World) (es : List Edit)
+    (hdir : NoTrackedBelowFile (runEdits env w0 es)) (hutf : TrackedUtf8 (runEdits env w0 es))
+    (hstat : StatHonest (runEdits env w0 es)) (hkind : KindFollowsContent (runEdits env w0 es))
+    (hlink : LinkLookupHarmless (runEdits env w0 es)) :
+    ∃ s, status (runEdits env w0 es) = .ok s ∧ ExactStatus (runEdits env w0 es) s :=
+  status_exact_partial _ hdir hutf hstat hkind hlink
+
+/-! ### a non-trivial instance, and the witnesses that each hypothesis is needed -/
+
+section witnesses
+
+def reg : LinkRes := ⟨.file, none⟩
+def pa : Path := [97]            -- a
+def pb : Path := [98]            -- b
+def pc : Path := [99]            -- c
+def pn : Path := [110]           -- n
+def pu : Path := [117]           -- u
+def pde : Path := [100, 47, 101] -- d/e
+def pd : Path := [100]           -- d
+
+/-- HEAD has a, b, c, d/e; the index has a modification of b staged, n added, c removed; in the
+directory a was rewritten (new mtime), d/e is a link leading outside, u is new. -/
+def wDemo : World :=
+  { head := [(pa, ⟨.regular, 1⟩), (pb, ⟨.regular, 2⟩), (pc, ⟨.executable, 3⟩), (pde, ⟨.symlink, 4⟩)],
+    index := [(pa, ⟨.regular, 1, ⟨5, 5, 10⟩⟩), (pb, ⟨.regular, 7, ⟨6, 6, 3⟩⟩), (pn, ⟨.executable, 8, ⟨6, 6, 1⟩⟩),
+              (pde, ⟨.symlink, 4, ⟨5, 5, 9⟩⟩)],
+    wd := [(pa, ⟨.regular, 9, ⟨7, 7, 10⟩, reg⟩), (pb, ⟨.regular, 7, ⟨6, 6, 3⟩, reg⟩), (pn, ⟨.executable, 8, ⟨6, 6, 1⟩, reg⟩),
+           (pde, ⟨.symlink, 4, ⟨5, 5, 9⟩, ⟨.missing, none⟩⟩), (pu, ⟨.regular, 1, ⟨8, 8, 10⟩, reg⟩)] }
+
+example : NoTrackedBelowFile wDemo ∧ TrackedUtf8 wDemo ∧ StatHonest wDemo ∧ KindFollowsContent wDemo ∧
+    LinkLookupHarmless wDemo := by decide
+
+example : status wDemo = .ok ⟨[pn], [pc], [pb], [pa], [pu]⟩ := by decide
+
+/-- the same state reached by edits from a clean checkout -/
+example : status (runEdits ⟨[], 0⟩
+    { head := wDemo.head,
+      index := [(pa, ⟨.regular, 1, ⟨5, 5, 10⟩⟩), (pb, ⟨.regular, 2, ⟨5, 5, 3⟩⟩), (pc, ⟨.executable, 3, ⟨5, 5, 2⟩⟩), (pde, ⟨.symlink, 4, ⟨5, 5, 9⟩⟩)],
+      wd := [(pa, ⟨.regular, 1, ⟨5, 5, 10⟩, reg⟩), (pb, ⟨.regular, 2, ⟨5, 5, 3⟩, reg⟩), (pc, ⟨.executable, 3, ⟨5, 5, 2⟩, reg⟩),
+             (pde, ⟨.symlink, 4, ⟨5, 5, 9⟩, ⟨.missing, none⟩⟩)] }
+    [.modify pb 7 ⟨6, 6, 3⟩, .stage pb, .create pn ⟨.executable, 8, ⟨6, 6, 1⟩, reg⟩, .stage pn, .rmCached pc, .delete pc,
+     .modify pa 9 ⟨7, 7, 10⟩, .create pu ⟨.regular, 1, ⟨8, 8, 10⟩, reg⟩])
+    = .ok ⟨[pn], [pc], [pb], [pa], [pu]⟩ := by decide
+
+/-- Same-size rewrite within the same time stamp: the cached stat key still matches. -/
+def wRacy : World :=
+  { head := [(pa, ⟨.regular, 1⟩)], index := [(pa, ⟨.regular, 1, ⟨5, 5, 4⟩⟩)],
+    wd := [(pa, ⟨.regular, 2, ⟨5, 5, 4⟩, reg⟩)] }
+
+/-- `StatHonest` is needed: without it (and with every other hypothesis in place) status reports a
+clean tree although the file's content differs from the index. -/
+theorem stat_honest_needed_counterexample :
+    ¬ StatHonest wRacy ∧ NoTrackedBelowFile wRacy ∧ TrackedUtf8 wRacy ∧ KindFollowsContent wRacy ∧
+    LinkLookupHarmless wRacy ∧ status wRacy = .ok ⟨[], [], [], [], []⟩ ∧
+    wdEntry wRacy.wd pa ≠ (wRacy.index.get pa).map IEntry.entry := by decide
+
+/-- chmod +x on a tracked file (stat key differs: ctime moved). -/
+def wChmod : World :=
+  { head := [(pa, ⟨.regular, 1⟩)], index := [(pa, ⟨.regular, 1, ⟨5, 5, 4⟩⟩)],
+    wd := [(pa, ⟨.executable, 1, ⟨6, 5, 4⟩, reg⟩)] }
+
+/-- FINDING (mode-only change): all hypotheses but `KindFollowsContent` hold, and status misses it. -/
+theorem status_mode_only_counterexample :
+    StatHonest wChmod ∧ NoTrackedBelowFile wChmod ∧ TrackedUtf8 wChmod ∧ LinkLookupHarmless wChmod ∧
+    status wChmod = .ok ⟨[], [], [], [], []⟩ ∧
+    wdEntry wChmod.wd pa ≠ (wChmod.index.get pa).map IEntry.entry := by decide
+
+/-- The full statement (only `StatHonest` assumed) does not hold for the code as it is. -/
+theorem statusExactStatement_counterexample : ¬ StatusExactStatement := by
+  intro h
+  obtain ⟨s, hs, hex⟩ := h wChmod (by decide)
+  have hc : status wChmod = .ok ⟨[], [], [], [], []⟩ := by decide
+  rw [hc] at hs
+  cases hs
+  have := (hex.2.2.2.1 pa).mpr ⟨⟨.regular, 1, ⟨5, 5, 4⟩⟩, by decide, by decide⟩
+  simp at this
+
+/-- A file replaced by a link whose target bytes are the old content (same blob id). -/
+def wType : World :=
+  { head := [(pa, ⟨.regular, 1⟩)], index := [(pa, ⟨.regular, 1, ⟨5, 5, 1⟩⟩)],
+    wd := [(pa, ⟨.symlink, 1, ⟨6, 6, 1⟩, ⟨.missing, none⟩⟩)] }
+
+/-- FINDING (type change with the same blob): status reports nothing. -/
+theorem status_type_change_counterexample :
+    StatHonest wType ∧ status wType = .ok ⟨[], [], [], [], []⟩ ∧
+    wdEntry wType.wd pa ≠ (wType.index.get pa).map IEntry.entry := by decide
+
+/-- A tracked directory `d` (with `d/e`) replaced by a file `d`. -/
+def wDirFile : World :=
+  { head := [(pde, ⟨.regular, 1⟩)], index := [(pde, ⟨.regular, 1, ⟨5, 5, 1⟩⟩)],
+    wd := [(pd, ⟨.regular, 2, ⟨6, 6, 3⟩, reg⟩)] }
+
+/-- FINDING: status raises `NotADirectoryError` (all other hypotheses hold). -/
+theorem status_notdir_counterexample :
+    StatHonest wDirFile ∧ TrackedUtf8 wDirFile ∧ KindFollowsContent wDirFile ∧ LinkLookupHarmless wDirFile ∧
+    status wDirFile = .error .notADirectory := by decide
+
+/-- A modified tracked file whose name is the single byte 0xff. -/
+def wNonUtf8 : World :=
+  { head := [([255], ⟨.regular, 1⟩)], index := [([255], ⟨.regular, 1, ⟨5, 5, 1⟩⟩)],
+    wd := [([255], ⟨.regular, 2, ⟨6, 6, 7⟩, reg⟩)] }
+
+/-- FINDING: status raises `UnicodeDecodeError` (all other hypotheses hold). -/
+theorem status_utf8_counterexample :
+    StatHonest wNonUtf8 ∧ NoTrackedBelowFile wNonUtf8 ∧ KindFollowsContent wNonUtf8 ∧ LinkLookupHarmless wNonUtf8 ∧
+    status wNonUtf8 = .error .unicodeDecode := by decide
+
+/-- `l -> a` untracked next to the tracked `a`; `k -> d` untracked, `d` a directory. -/
+def wLinks : World :=
+  { head := [(pa, ⟨.regular, 1⟩), (pde, ⟨.regular, 2⟩)],
+    index := [(pa, ⟨.regular, 1, ⟨5, 5, 1⟩⟩), (pde, ⟨.regular, 2, ⟨5, 5, 1⟩⟩)],
+    wd := [(pa, ⟨.regular, 1, ⟨5, 5, 1⟩, reg⟩), (pde, ⟨.regular, 2, ⟨5, 5, 1⟩, reg⟩),
+           ([108], ⟨.symlink, 3, ⟨6, 6, 1⟩, ⟨.file, some pa⟩⟩), ([107], ⟨.symlink, 4, ⟨6, 6, 1⟩, ⟨.dir, some pd⟩⟩)] }
+
+/-- FINDING: untracked links that lead to a tracked path or to a directory are not reported. -/
+theorem status_untracked_link_counterexample :
+    StatHonest wLinks ∧ NoTrackedBelowFile wLinks ∧ TrackedUtf8 wLinks ∧ KindFollowsContent wLinks ∧
+    status wLinks = .ok ⟨[], [], [], [], []⟩ ∧
+    wdEntry wLinks.wd [108] = some ⟨.symlink, 3⟩ ∧ wLinks.index.get [108] = none ∧
+    wdEntry wLinks.wd [107] = some ⟨.symlink, 4⟩ ∧ wLinks.index.get [107] = none := by decide
+
+end witnesses
+
+/-! ## 2. checkout: status is clean, and staging everything reproduces the tree -/
+
+/-- Every link of the tree leads to a directory, leads outside the work tree, or resolves to a path
+that is itself in the tree (so that the index lookup by resolved path finds something). -/
+def LinksHarmless (t : FMap Entry) (obs : Obs) : Prop :=
+  t.keys.all (fun p =>
+    match t.get p, obs.get p with
+    | some e, some o =>
+      !(e.kind == .symlink) || o.2.target == .dir ||
+        (match o.2.alias with
+         | none => true
+         | some q => t.has q)
+    | _, _ => true) = true
+
+/-- No link of the tree leads to a directory. -/
+def NoLinkToDir (t : FMap Entry) (obs : Obs) : Prop :=
+  t.keys.all (fun p =>
+    match t.get p, obs.get p with
+    | some e, some o => !(e.kind == .symlink && o.2.target == .dir)
+    | _, _ => true) = true
+
+instance (t : FMap Entry) (obs : Obs) : Decidable (LinksHarmless t obs) := by unfold LinksHarmless; infer_instance
+instance (t : FMap Entry) (obs : Obs) : Decidable (NoLinkToDir t obs) := by unfold NoLinkToDir; infer_instance
+
+/-- Full statement: status is clean right after the checkout of any tree of valid paths. FALSE for the
+code as it is (`clean_after_checkout_counterexample`). -/
+def CleanAfterCheckoutStatement : Prop :=
+  ∀ (t : FMap Entry) (obs : Obs), t.keys.all validPath = true → t.keys.all obs.has = true → TreeWF t →
+    ∃ w, checkoutFresh t obs = .ok w ∧ status w = .ok ⟨[], [], [], [], []⟩
+
+/-- Checkout of a well-formed tree of valid paths succeeds and status is clean immediately afterwards,
+provided the tree's links are harmless for the resolved-path lookup. -/
+theorem clean_after_checkout_partial (t : FMap Entry) (obs : Obs)
+    (hvalid : t.keys.all validPath = true) (hobs : t.keys.all obs.has = true) (hwf : TreeWF t)
+    (hlinks : LinksHarmless t obs) :
+    ∃ w, checkoutFresh t obs = .ok w ∧ status w = .ok ⟨[], [], [], [], []⟩ := by
+  refine ⟨checkedOut t obs, by simp [checkoutFresh, hvalid, hobs], ?_⟩
+  obtain ⟨ha, hd, hm, hu⟩ := checkedOut_nothing_changed hobs hwf
+  have hut : untrackedOf (checkedOut t obs).wd (checkedOut t obs).index = [] := by
+    simp only [untrackedOf, List.filter_eq_nil_iff]
+    intro p hp
+    have hp' : p ∈ t.keys := by
+      simp only [checkedOut] at hp; rwa [checkoutFiles_keys t obs hobs] at hp
+    obtain ⟨e, o, he, ho, hv, hg⟩ := checkedOut_view hobs hwf hp'
+    have hl := (List.all_eq_true.mp hlinks) p hp'
+    simp only [he, ho] at hl
+    have hhas : ∀ q, q ∈ t.keys → (checkedOut t obs).index.has q = true := by
+      intro q hq; rw [FMap.has_iff, checkedOut_index_keys t obs hobs]; exact hq
+    have hv' : lstatView (checkedOut t obs).wd p = .file ⟨e.kind, e.cid, o.1, o.2⟩ := hv
+    simp only [untrackedAt, hv', walkedAsFile, aliasOf]
+    cases hk : e.kind <;> simp only [hk] at hl ⊢
+    · simpa using hhas p hp'
+    · simpa using hhas p hp'
+    · cases htg : o.2.target <;> simp only [htg] at hl ⊢ <;> try simp
+      all_goals
+        cases hal : o.2.alias with
+        | none => simpa using hhas p hp'
+        | some q =>
+          simp only [hal] at hl
+          have hq : q ∈ t.keys := by
+            have : t.has q = true := by simpa using hl
+            exact (FMap.has_iff t q).mp this
+          simpa using hhas q hq
+  unfold status
+  have hh : (checkedOut t obs).head = t := rfl
+  rw [hu, hh, ha, hd, hm, hut]
+  rfl
+
+/-- non-vacuity: a tree with a file, an executable in a directory, and two harmless links -/
+example : ∃ w, checkoutFresh
+      [(pa, ⟨.regular, 1⟩), (pde, ⟨.executable, 2⟩), ([108], ⟨.symlink, 3⟩), ([107], ⟨.symlink, 4⟩)]
+      [(pa, (⟨5, 5, 1⟩, reg)), (pde, (⟨5, 5, 2⟩, reg)), ([108], (⟨5, 5, 1⟩, ⟨.file, some pa⟩)),
+       ([107], (⟨5, 5, 9⟩, ⟨.missing, none⟩))] = .ok w ∧ status w = .ok ⟨[], [], [], [], []⟩ :=
+  clean_after_checkout_partial _ _ (by decide) (by decide) (by decide) (by decide)
+
+/-- FINDING: a tracked link whose target does not exist (resolves to the untracked work-tree path
+`b`) is listed as untracked right after checkout. -/
+theorem clean_after_checkout_counterexample : ¬ CleanAfterCheckoutStatement := by
+  intro h
+  obtain ⟨w, hw, hs⟩ := h [(pa, ⟨.symlink, 1⟩)] [(pa, (⟨5, 5, 1⟩, ⟨.missing, some pb⟩))] (by decide) (by decide) (by decide)
+  have h1 : checkoutFresh [(pa, ⟨.symlink, 1⟩)] [(pa, (⟨5, 5, 1⟩, ⟨.missing, some pb⟩))] =
+      .ok (checkedOut [(pa, ⟨.symlink, 1⟩)] [(pa, (⟨5, 5, 1⟩, ⟨.missing, some pb⟩))]) := by decide
+  rw [h1] at hw
+  cases hw
+  revert hs
+  decide
+
+/-- `checkout_stage_roundtrip`: check out any well-formed tree of valid paths, stage everything
+(`porcelain.add()`), and the index's tree is the tree that was checked out. -/
+theorem checkout_stage_roundtrip (t : FMap Entry) (obs : Obs)
+    (hvalid : t.keys.all validPath = true) (hobs : t.keys.all obs.has = true) (hwf : TreeWF t) :
+    ∃ w w', checkoutFresh t obs = .ok w ∧ stageAll w = .ok w' ∧
+      ∀ p, (treeOf w'.index).get p = t.get p := by
+  refine ⟨checkedOut t obs,
+    (untrackedOf (checkedOut t obs).wd (checkedOut t obs).index ++ []).foldl stage (checkedOut t obs),
+    by simp [checkoutFresh, hvalid, hobs], ?_, ?_⟩
+  · obtain ⟨_, _, _, hu⟩ := checkedOut_nothing_changed hobs hwf
+    unfold stageAll
+    rw [hu]
+    rfl
+  · intro p
+    have hsame : ∀ q ∈ untrackedOf (checkedOut t obs).wd (checkedOut t obs).index,
+        ∃ f, lstatView (checkedOut t obs).wd q = .file f ∧ (checkedOut t obs).index.get q = some f.ientry := by
+      intro q hq
+      simp only [untrackedOf, List.mem_filter] at hq
+      have hq' : q ∈ t.keys := by
+        have := hq.1; simp only [checkedOut] at this; rwa [checkoutFiles_keys t obs hobs] at this
+      obtain ⟨e, o, _, _, hv, hg⟩ := checkedOut_view hobs hwf hq'
+      exact ⟨_, hv, by rw [checkedOut_index_get, hg]; rfl⟩
+    have hidx := foldl_stage_same _ (checkedOut t obs) hsame p
+    simp only [treeOf, List.append_nil]
+    rw [FMap.get_mapVal _ (fun _ (v : IEntry) => v.entry) p, hidx, checkedOut_index_get, checkoutFiles_get t obs hobs]
+    cases ht : t.get p with
+    | none => simp
+    | some e =>
+      have hp : p ∈ t.keys := FMap.mem_keys_of_get ht
+      obtain ⟨o, ho⟩ := Option.isSome_iff_exists.mp ((List.all_eq_true.mp hobs) p hp)
+      simp [ho, WFile.ientry, IEntry.entry]
+
+/-- The stronger round trip: throw the index away after the checkout, add everything from scratch, and
+the index's tree is again the tree — provided no link of the tree leads to a directory. -/
+theorem checkout_clear_stage_roundtrip_partial (t : FMap Entry) (obs : Obs)
+    (hvalid : t.keys.all validPath = true) (hobs : t.keys.all obs.has = true) (hwf : TreeWF t)
+    (hnd : NoLinkToDir t obs) :
+    ∃ w w', checkoutFresh t obs = .ok w ∧ stageAll (clearIndex w) = .ok w' ∧
+      ∀ p, (treeOf w'.index).get p = t.get p := by
+  refine ⟨checkedOut t obs,
+    (untrackedOf (checkedOut t obs).wd [] ++ []).foldl stage (clearIndex (checkedOut t obs)),
+    by simp [checkoutFresh, hvalid, hobs], rfl, ?_⟩
+  · intro p
+    have hkeys : (checkedOut t obs).wd.keys = t.keys := by
+      simp only [checkedOut]; exact checkoutFiles_keys t obs hobs
+    have hL : untrackedOf (checkedOut t obs).wd [] = t.keys := by
+      simp only [untrackedOf, hkeys]
+      rw [List.filter_eq_self]
+      intro q hq
+      obtain ⟨e, o, he, ho, hv, _⟩ := checkedOut_view hobs hwf hq
+      have hn := (List.all_eq_true.mp hnd) q hq
+      simp only [he, ho] at hn
+      simp only [untrackedAt, checkedOut] at hv ⊢
+      rw [hv]
+      simpa [walkedAsFile, FMap.has] using hn
+    have hfiles : ∀ q ∈ t.keys, ∃ f, lstatView (clearIndex (checkedOut t obs)).wd q = .file f := by
+      intro q hq
+      obtain ⟨e, o, _, _, hv, _⟩ := checkedOut_view hobs hwf hq
+      exact ⟨_, hv⟩
+    have hidx := foldl_stage_files t.keys (clearIndex (checkedOut t obs)) hfiles p
+    simp only [treeOf, List.append_nil]
+    rw [FMap.get_mapVal _ (fun _ (v : IEntry) => v.entry) p, hL, hidx]
+    cases ht : t.get p with
+    | none =>
+      have : p ∉ t.keys := by
+        intro hp; obtain ⟨v, hv⟩ := FMap.get_of_mem_keys hp; rw [ht] at hv; cases hv
+      simp [this, clearIndex]
+    | some e =>
+      have hp : p ∈ t.keys := FMap.mem_keys_of_get ht
+      obtain ⟨o, ho⟩ := Option.isSome_iff_exists.mp ((List.all_eq_true.mp hobs) p hp)
+      have hg : (checkoutFiles t obs).get p = some ⟨e.kind, e.cid, o.1, o.2⟩ := by
+        rw [checkoutFiles_get t obs hobs, ht, ho]; rfl
+      simp [hp, clearIndex, checkedOut, hg, WFile.ientry, IEntry.entry]
+
+/-- non-vacuity for both round trips -/
+example : ∃ w w', checkoutFresh
+      [(pa, ⟨.regular, 1⟩), (pde, ⟨.executable, 2⟩), ([108], ⟨.symlink, 3⟩)]
+      [(pa, (⟨5, 5, 1⟩, reg)), (pde, (⟨5, 5, 2⟩, reg)), ([108], (⟨5, 5, 1⟩, ⟨.missing, some pb⟩))] = .ok w ∧
+      stageAll (clearIndex w) = .ok w' ∧
+      ∀ p, (treeOf w'.index).get p = FMap.get [(pa, ⟨.regular, 1⟩), (pde, ⟨.executable, 2⟩), ([108], ⟨.symlink, 3⟩)] p :=
+  checkout_clear_stage_roundtrip_partial _ _ (by decide) (by decide) (by decide) (by decide)
+
+/-- FINDING: a link that leads to a directory is not picked up by "add everything": after checkout,
+dropping the index and adding everything, the link `k -> d` is missing from the index. -/
+theorem checkout_clear_stage_counterexample :
+    ∃ w w', checkoutFresh [(pde, ⟨.regular, 1⟩), ([107], ⟨.symlink, 2⟩)]
+        [(pde, (⟨5, 5, 1⟩, reg)), ([107], (⟨5, 5, 1⟩, ⟨.dir, some pd⟩))] = .ok w ∧
+      stageAll (clearIndex w) = .ok w' ∧ (treeOf w'.index).get [107] = none := by
+  refine ⟨checkedOut [(pde, ⟨.regular, 1⟩), ([107], ⟨.symlink, 2⟩)]
+    [(pde, (⟨5, 5, 1⟩, reg)), ([107], (⟨5, 5, 1⟩, ⟨.dir, some pd⟩))], _, by decide, rfl, by decide⟩
+
+/-! ## 3. branch switch -/
+
+/-- Full statement: from a clean checkout of any tree `a`, `porcelain.checkout` of any tree `b`
+succeeds, the directory and the index then hold exactly `b`, and nothing is staged or unstaged.
+FALSE for the code as it is when a directory of `a` is a file in `b`
+(`branch_switch_dir_to_file_counterexample`). -/
+def BranchSwitchStatement : Prop :=
+  ∀ (a b : FMap Entry) (obsA obsB : Obs),
+    a.keys.all validPath = true → b.keys.all validPath = true →
+    a.keys.all obsA.has = true → b.keys.all obsB.has = true → TreeWF a → TreeWF b →
+    ∃ w', switchTo (checkedOut a obsA) b obsB = ⟨w', none⟩ ∧ w'.head = b ∧
+      (∀ p, wdEntry w'.wd p = b.get p) ∧ (∀ p, (treeOf w'.index).get p = b.get p)
+
+/-- `branch_switch`: check out `b` on a clean checkout of `a`, for all pairs of trees in which no
+path of one tree lies below a path of the other (or of itself): every combination of added, deleted,
+modified, re-moded and type-changed (file ↔ executable ↔ symbolic link) paths at any depth.  The
+switch succeeds, HEAD is `b`, the directory holds exactly `b` (kinds and contents), the index's tree
+is `b`, nothing is staged or unstaged, and status is clean whenever the link lookup is harmless.
+File → directory replacement is covered by the instances below; directory → file is a finding. -/
+theorem branch_switch_partial (a b : FMap Entry) (obsA obsB : Obs)
+    (hva : a.keys.all validPath = true) (hvb : b.keys.all validPath = true)
+    (hoa : a.keys.all obsA.has = true) (hob : b.keys.all obsB.has = true)
+    (hfree : AncFree (a.keys ++ b.keys)) :
+    ∃ w', switchTo (checkedOut a obsA) b obsB = ⟨w', none⟩ ∧ w'.head = b ∧
+      (∀ p, wdEntry w'.wd p = b.get p) ∧ (∀ p, (treeOf w'.index).get p = b.get p) ∧
+      status w' = .ok ⟨[], [], [], [], untrackedOf w'.wd w'.index⟩ ∧
+      (LinkLookupHarmless w' → status w' = .ok ⟨[], [], [], [], []⟩) := by
+  have hwfa : TreeWF a := treeWF_of_ancFree hfree
+  have hsync := checkedOut_synced hoa hwfa
+  have hcu := checkUncommitted_synced hsync b
+  have hpd : preCheckDirs (checkedOut a obsA).wd (changes a b) = .ok () := preCheckDirs_free hfree
+  have hpm : preCheckModified (checkedOut a obsA).wd (changes a b) = .ok () := preCheckModified_synced hsync b
+  -- facts about the files of the clean checkout
+  have hfA0 : ∀ p, a.get p = none → (checkoutFiles a obsA).get p = none := by
+    intro p h; rw [checkoutFiles_get a obsA hoa, h]; rfl
+  have hfA1 : ∀ p x, a.get p = some x → ∃ f, (checkoutFiles a obsA).get p = some f ∧ f.entry = x := by
+    intro p x h
+    obtain ⟨o, ho⟩ := Option.isSome_iff_exists.mp ((List.all_eq_true.mp hoa) p (FMap.mem_keys_of_get h))
+    exact ⟨⟨x.kind, x.cid, o.1, o.2⟩, by rw [checkoutFiles_get a obsA hoa, h, ho]; rfl, rfl⟩
+  have hkeys0 : ∀ k ∈ (checkoutFiles a obsA).keys, k ∈ a.keys ++ b.keys := by
+    intro k hk; rw [checkoutFiles_keys a obsA hoa] at hk; exact List.mem_append_left _ hk
+  obtain ⟨s', happ, hkeys', hin, hout⟩ := applyChanges_paths (a := a) (b := b) (fA := checkoutFiles a obsA)
+    (obs := obsB) hfree
+    (fun p x h => (List.all_eq_true.mp hva) p (FMap.mem_keys_of_get h))
+    (fun p y h => (List.all_eq_true.mp hvb) p (FMap.mem_keys_of_get h))
+    (fun p y h => Option.isSome_iff_exists.mp ((List.all_eq_true.mp hob) p (FMap.mem_keys_of_get h)))
+    hfA0 hfA1 (changedPathOrder a b) (nodup_changedPathOrder a b)
+    (fun p hp => (mem_changedPathOrder a b p).mp hp)
+    ⟨(checkedOut a obsA).wd, (checkedOut a obsA).index⟩ hkeys0
+    (fun p _ => ⟨rfl, checkedOut_index_get a obsA p⟩)
+  -- the state at every path is the target state
+  have hall : ∀ p, s'.wd.get p = targetWd a b (checkoutFiles a obsA) obsB p ∧
+      s'.index.get p = (targetWd a b (checkoutFiles a obsA) obsB p).map WFile.ientry := by
+    intro p
+    by_cases hp : p ∈ changedPathOrder a b
+    · exact hin p hp
+    · have hpK : p ∉ a.keys ++ b.keys := fun e => hp ((mem_changedPathOrder a b p).mpr e)
+      have han : a.get p = none := by
+        cases h : a.get p with
+        | none => rfl
+        | some x => exact absurd (List.mem_append_left _ (FMap.mem_keys_of_get h)) hpK
+      have hbn : b.get p = none := by
+        cases h : b.get p with
+        | none => rfl
+        | some x => exact absurd (List.mem_append_right _ (FMap.mem_keys_of_get h)) hpK
+      have ht : targetWd a b (checkoutFiles a obsA) obsB p = none := by simp [targetWd, hbn]
+      rw [(hout p hp).1, (hout p hp).2, ht]
+      exact ⟨hfA0 p han, by rw [checkedOut_index_get, hfA0 p han]⟩
+  have hsync' : Synced ⟨b, s'.index, s'.wd⟩ := by
+    refine ⟨fun p => by rw [(hall p).2, (hall p).1], ?_, ?_⟩
+    · intro p
+      show b.get p = (s'.wd.get p).map WFile.entry
+      rw [(hall p).1]
+      unfold targetWd
+      cases hb : b.get p with
+      | none => rfl
+      | some y =>
+        by_cases hay : a.get p = some y
+        · obtain ⟨f, hf, hfe⟩ := hfA1 p y hay
+          simp [hay, hf, hfe]
+        · obtain ⟨o, ho⟩ := Option.isSome_iff_exists.mp ((List.all_eq_true.mp hob) p (FMap.mem_keys_of_get hb))
+          simp [hay, ho, fileOf, WFile.entry]
+    · intro p hp
+      exact (free_view hkeys' hfree (hkeys' p hp)).1
+  refine ⟨⟨b, s'.index, s'.wd⟩, ?_, rfl, hsync'.wdEntry, hsync'.treeOf, hsync'.status, ?_⟩
+  · unfold switchTo
+    have hh : (checkedOut a obsA).head = a := rfl
+    have happ' : applyChanges obsB ⟨(checkedOut a obsA).wd, (checkedOut a obsA).index⟩ (changes a b) = (s', none) := happ
+    simp only [hcu, hh, hpd, hpm, happ']
+  · intro hl
+    rw [hsync'.status]
+    have : untrackedOf s'.wd s'.index = [] := by
+      simp only [untrackedOf, List.filter_eq_nil_iff]
+      intro p hp
+      have hlp := (List.all_eq_true.mp hl) p hp
+      obtain ⟨f, hf⟩ := FMap.get_of_mem_keys hp
+      have hv : lstatView s'.wd p = .file f := hsync'.view hf
+      have hi : s'.index.has p = true := by
+        have := hsync'.idx p
+        simp only at this
+        simp [FMap.has, this, hf]
+      simp only [hv, hi] at hlp
+      simp only [untrackedAt, hv]
+      cases hwf : walkedAsFile f <;> cases hal : s'.index.has (aliasOf p f) <;> simp_all
+    simp only [this]
+
+/-- non-vacuity: one switch that adds, deletes, rewrites, re-modes and changes the type of paths -/
+example : ∃ w', switchTo
+      (checkedOut [(pa, ⟨.regular, 1⟩), (pb, ⟨.regular, 2⟩), (pc, ⟨.regular, 3⟩), (pde, ⟨.regular, 4⟩), (pu, ⟨.symlink, 5⟩)]
+        [(pa, (⟨5, 5, 1⟩, reg)), (pb, (⟨5, 5, 1⟩, reg)), (pc, (⟨5, 5, 1⟩, reg)), (pde, (⟨5, 5, 1⟩, reg)),
+         (pu, (⟨5, 5, 1⟩, ⟨.missing, none⟩))])
+      [(pa, ⟨.regular, 1⟩), (pb, ⟨.executable, 2⟩), (pc, ⟨.symlink, 3⟩), (pn, ⟨.regular, 6⟩), (pu, ⟨.regular, 5⟩)]
+      [(pa, (⟨9, 9, 1⟩, reg)), (pb, (⟨9, 9, 1⟩, reg)), (pc, (⟨9, 9, 1⟩, ⟨.missing, none⟩)), (pn, (⟨9, 9, 1⟩, reg)),
+       (pu, (⟨9, 9, 1⟩, reg))] = ⟨w', none⟩ ∧
+      w'.head = [(pa, ⟨.regular, 1⟩), (pb, ⟨.executable, 2⟩), (pc, ⟨.symlink, 3⟩), (pn, ⟨.regular, 6⟩), (pu, ⟨.regular, 5⟩)] ∧
+      status w' = .ok ⟨[], [], [], [], []⟩ := by
+  obtain ⟨w', h1, h2, _, _, _, h6⟩ := branch_switch_partial
+    [(pa, ⟨.regular, 1⟩), (pb, ⟨.regular, 2⟩), (pc, ⟨.regular, 3⟩), (pde, ⟨.regular, 4⟩), (pu, ⟨.symlink, 5⟩)]
+    [(pa, ⟨.regular, 1⟩), (pb, ⟨.executable, 2⟩), (pc, ⟨.symlink, 3⟩), (pn, ⟨.regular, 6⟩), (pu, ⟨.regular, 5⟩)]
+    [(pa, (⟨5, 5, 1⟩, reg)), (pb, (⟨5, 5, 1⟩, reg)), (pc, (⟨5, 5, 1⟩, reg)), (pde, (⟨5, 5, 1⟩, reg)),
+     (pu, (⟨5, 5, 1⟩, ⟨.missing, none⟩))]
+    [(pa, (⟨9, 9, 1⟩, reg)), (pb, (⟨9, 9, 1⟩, reg)), (pc, (⟨9, 9, 1⟩, ⟨.missing, none⟩)), (pn, (⟨9, 9, 1⟩, reg)),
+     (pu, (⟨9, 9, 1⟩, reg))]
+    (by decide) (by decide) (by decide) (by decide) (by decide)
+  refine ⟨w', h1, h2, h6 ?_⟩
+  have hw : w' = (switchTo
+      (checkedOut [(pa, ⟨.regular, 1⟩), (pb, ⟨.regular, 2⟩), (pc, ⟨.regular, 3⟩), (pde, ⟨.regular, 4⟩), (pu, ⟨.symlink, 5⟩)]
+        [(pa, (⟨5, 5, 1⟩, reg)), (pb, (⟨5, 5, 1⟩, reg)), (pc, (⟨5, 5, 1⟩, reg)), (pde, (⟨5, 5, 1⟩, reg)),
+         (pu, (⟨5, 5, 1⟩, ⟨.missing, none⟩))])
+      [(pa, ⟨.regular, 1⟩), (pb, ⟨.executable, 2⟩), (pc, ⟨.symlink, 3⟩), (pn, ⟨.regular, 6⟩), (pu, ⟨.regular, 5⟩)]
+      [(pa, (⟨9, 9, 1⟩, reg)), (pb, (⟨9, 9, 1⟩, reg)), (pc, (⟨9, 9, 1⟩, ⟨.missing, none⟩)), (pn, (⟨9, 9, 1⟩, reg)),
+       (pu, (⟨9, 9, 1⟩, reg))]).world := by rw [h1]
+  rw [hw]
+  decide
+
+/-- File → directory: `x` (file, executable, or link) in `a`, `x/y` in `b` — the switch works. -/
+theorem branch_switch_file_to_dir_instances :
+    ∀ k ∈ [Kind.regular, Kind.executable, Kind.symlink],
+      let r := switchTo (checkedOut [([120], ⟨k, 1⟩), (pa, ⟨.regular, 2⟩)]
+          [([120], (⟨5, 5, 1⟩, ⟨.missing, none⟩)), (pa, (⟨5, 5, 1⟩, reg))])
+        [([120, 47, 121], ⟨.regular, 1⟩), ([120, 47, 122, 47, 119], ⟨.symlink, 3⟩), (pa, ⟨.regular, 2⟩)]
+        [([120, 47, 121], (⟨9, 9, 1⟩, reg)), ([120, 47, 122, 47, 119], (⟨9, 9, 1⟩, ⟨.missing, none⟩))]
+      r.err = none ∧ status r.world = .ok ⟨[], [], [], [], []⟩ ∧
+      wdEntry r.world.wd [120, 47, 121] = some ⟨.regular, 1⟩ ∧ wdEntry r.world.wd [120] = none ∧
+      (treeOf r.world.index).get [120] = none ∧ (treeOf r.world.index).get [120, 47, 122, 47, 119] = some ⟨.symlink, 3⟩ := by
+  decide
+
+/-- FINDING: directory → file.  `a` has `x/y`, `b` has the file `x`: `tree_changes` yields "add x"
+before "delete x/y", so `_transition_to_file` meets a non-empty directory and raises
+`IsADirectoryError`; HEAD, index and directory stay at `a`. -/
+theorem branch_switch_dir_to_file_counterexample : ¬ BranchSwitchStatement := by
+  intro h
+  obtain ⟨w', hw, _⟩ := h [([120, 47, 121], ⟨.regular, 1⟩)] [([120], ⟨.regular, 1⟩)]
+    [([120, 47, 121], (⟨5, 5, 1⟩, reg))] [([120], (⟨9, 9, 1⟩, reg))]
+    (by decide) (by decide) (by decide) (by decide) (by decide) (by decide)
+  have : (switchTo (checkedOut [([120, 47, 121], ⟨.regular, 1⟩)] [([120, 47, 121], (⟨5, 5, 1⟩, reg))])
+      [([120], ⟨.regular, 1⟩)] [([120], (⟨9, 9, 1⟩, reg))]).err = some .isADirectory := by decide
+  rw [hw] at this
+  cases this
+
 end Dulwich.Props.C18
